@@ -49,6 +49,7 @@ type Chan struct {
 	Polls     int
 	CloseAt   int
 	PollSites []string
+	Counter   *Value // harness counter of writes, read when the channel closes
 }
 
 // Map is an insertion-ordered map with concrete keys.
